@@ -652,6 +652,48 @@ def longref_packet(last, via_pointer=True):
     return struct.pack(">HHHHHH", 0, 0x8400, 0, 2, 0, 0) + rec1 + rec2
 
 
+def late_pointer_packet(rng, target, total=None, padbyte=None):
+    """a well-formed response whose names are first written at offset `target` (behind a TXT record used as
+    padding) and referenced by compression pointers afterwards: with `target` >= 0x1000 / 0x2000 the pointers
+    carry each of the two top payload bits (`0xD0..`, `0xE0..`); with `target` > 8191 the datagram is longer than
+    8192 bytes (limit 8966).  Built by hand: the library's encoder never puts a record behind a > 1460-byte one."""
+    w = Wire(rng, compress=1.0)
+    w.name([b"a"])
+    pad = target - (len(w.b) + 10)
+    assert pad >= 0
+    body = bytes([padbyte]) * pad if padbyte is not None else bytes(rng.randrange(256) for _ in range(pad))
+    w.b += struct.pack(">HHIH", 16, 1, 120, pad) + body
+    assert len(w.b) == target
+    labels = [b"late", rng.choice([b"x", b"Foo", "\u00e9".encode(), b"y" * 63]), b"local"]
+    n = 2
+    w.name(labels)  # written in full at `target`
+    w.b += struct.pack(">HHIH", 1, 0x8001, 120, 4) + bytes(rng.randrange(256) for _ in range(4))
+    for kind in rng.sample(["ptr", "srv", "nsec", "a", "cname"], rng.choice([2, 3, 5])):
+        if len(w.b) > 8966 - 110:
+            break
+        n += 1
+        w.name(labels if rng.random() < 0.7 else [rlabel(rng)] + labels[rng.choice([0, 1, 2]):])  # pointer to >= target
+        t = {"ptr": 12, "cname": 5, "srv": 33, "nsec": 47, "a": 1}[kind]
+        w.b += struct.pack(">HHI", t, 1, 4500)
+        at = len(w.b)
+        w.b += b"\0\0"
+        if kind == "a":
+            w.b += b"\x0a\x00\x00\x01"
+        else:
+            if kind == "srv":
+                w.b += struct.pack(">HHH", 0, 0, 80)
+            w.name([rng.choice([b"q", b"host"])] + labels[rng.choice([0, 1, 2]):])
+            if kind == "nsec":
+                w.b += b"\x00\x04\x40\x00\x00\x08"
+        struct.pack_into(">H", w.b, at, len(w.b) - at - 2)
+    if total is not None and total - len(w.b) >= 14:
+        n += 1
+        w.b += b"\xc0\x0c" + struct.pack(">HHIH", 16, 1, 120, total - len(w.b) - 12)
+        w.b += bytes(rng.randrange(256) for _ in range(total - len(w.b)))
+    assert len(w.b) <= 8966
+    return w.finish(0, [n, 0, 0], flags=0x8400, id_=0), w
+
+
 ALPHABET = [0x00, 0x01, 0x3F, 0x40, 0xC0, 0x0C, 0xFF, 0x61]
 HEADERS = [struct.pack(">HHHHHH", 0, 0, 1, 0, 0, 0), struct.pack(">HHHHHH", 0, 0x8400, 0, 1, 0, 0)]
 
@@ -811,6 +853,17 @@ def gen_cases(tier, rng, budget, res):
     for last in (57, 58, 59, 60, 61, 62, 63):
         for via in (True, False):
             yield ("longref", longref_packet(last, via))
+    # large datagrams whose pointer targets lie late in the packet (all 14 pointer bits matter)
+    for target, total in [(0x0FF0, None), (0x1000, None), (0x1001, 8966), (0x1FFF, None), (0x2000, None), (0x2001, 8966), (0x2100, None),
+                          (8193 - 17, 8193), (8300, 8400), (8700, None), (8800, 8966), (8966 - 120, None)]:
+        for padbyte in (None, 0x00, 0xC0):
+            p, w = late_pointer_packet(rng, target, total, padbyte)
+            yield ("late-pointer", p)
+        yield ("late-pointer-mutated", mutate(rng, p, w))
+    for _ in range(10 if tier == "quick" else 300):
+        p, w = late_pointer_packet(rng, rng.choice([rng.randrange(0x1000, 0x2000), rng.randrange(0x2000, 8800), rng.randrange(8180, 8210)]),
+                                   rng.choice([None, 8966, 8193]) , rng.choice([None, 0, 0xC0, 0x01]))
+        yield ("late-pointer", p)
     # exhaustive small strings
     Lq, Lr = (4, 3) if tier == "quick" else (6, 5)
     n_ex = 0
@@ -902,10 +955,11 @@ def run(ctx):
     driver_ok = ctx["driver_ok"]
     budget = C.Budget(tier, 9000, 150000).n
     if ctx["widened"]:
-        budget *= 2
+        budget = budget * 3 // 2
     res.rule = ("datagrams from six streams (corpus; uniform random; wire-built valid messages and messages from the library's encoder, "
                 "plain and mutated by bit flips/truncation/insertion/count- and length-field corruption; pointer graphs: chains up to depth 4000, cycles, "
-                "self/forward references, pointers into rdata, empty-label chains; exhaustive strings over {00,01,3F,40,C0,0C,FF,'a'} behind two fixed headers); "
+                "self/forward references, pointers into rdata, empty-label chains; large datagrams (up to 8966 bytes) whose names are first defined "
+                "at offsets >= 0x1000 / 0x2000 / 8192 and referenced by pointers afterwards; exhaustive strings over {00,01,3F,40,C0,0C,FF,'a'} behind two fixed headers); "
                 "non-trivial = distinct (outcome, exception, valid, recursion depth, #questions, record kinds, strict-accepted) signature")
     chunk, base = [], 0
     for case in gen_cases(tier, rng, budget, res):
